@@ -183,3 +183,56 @@ Proof.
     + congruence.
   - repeat split; auto.
 Qed.
+
+(* ---- refutation witnesses (Conn.ApiVersions does not close on a body read error) ---- *)
+Definition C06_conn_abandon_closes_full_statement : Prop :=
+  forall ls s, run init ls = Some s ->
+  forall t e, ph (thr s t) = Failed e -> e <> ENoProgress -> closed s = true.
+
+Definition apiversions_witness : list label :=
+  [Enter 1 KApiVersions; LockW 1; Send 1 true true; Arrive 1; LockR 1; PeekOwn 1;
+   Deadline 1;                                   (* time-out in the middle of the body *)
+   Enter 2 KDo; LockW 2; Send 2 true true; LockR 2;
+   PeekGarbage 2;                                (* the left-over bytes carry id 2 *)
+   ReadDone 2 ROk]%nat.
+
+
+Lemma run_witness : forall ls (P : state -> bool),
+  match run init ls with Some s => P s | None => false end = true ->
+  exists s, run init ls = Some s /\ P s = true.
+Proof. intros ls P H. destruct (run init ls) as [s|]; [exists s; auto|discriminate]. Qed.
+
+Lemma apiversions_abandon_witness :
+  exists ls s t, run init ls = Some s /\ ph (thr s t) = Failed ERead /\ closed s = false /\
+                 misaligned s = true.
+Proof.
+  exists (firstn 7 apiversions_witness).
+  destruct (run_witness (firstn 7 apiversions_witness)
+    (fun s => match ph (thr s 1%nat) with Failed ERead => negb (closed s) && misaligned s | _ => false end))
+    as [s [R P]]; [vm_compute; reflexivity|].
+  exists s, 1%nat. split; [exact R|].
+  destruct (ph (thr s 1%nat)) as [| | | | | | | |[]]; try discriminate.
+  apply andb_prop in P. destruct P as [P1 P2]. repeat split; auto.
+  destruct (closed s); [discriminate|reflexivity].
+Qed.
+
+Lemma abandon_full_refuted : ~ C06_conn_abandon_closes_full_statement.
+Proof.
+  intros H. destruct apiversions_abandon_witness as [ls [s [t [R [P [C M]]]]]].
+  rewrite (H ls s R t ERead P) in C; discriminate.
+Qed.
+
+Lemma stale_delivery_witness :
+  exists ls s t, run init ls = Some s /\ ph (thr s t) = Done ROk /\ got (thr s t) = None /\
+                 closed s = false.
+Proof.
+  exists apiversions_witness.
+  destruct (run_witness apiversions_witness
+    (fun s => match ph (thr s 2%nat), got (thr s 2%nat) with
+              | Done ROk, None => negb (closed s) | _, _ => false end))
+    as [s [R P]]; [vm_compute; reflexivity|].
+  exists s, 2%nat. split; [exact R|].
+  destruct (ph (thr s 2%nat)) as [| | | | | | |[]|]; try discriminate.
+  destruct (got (thr s 2%nat)); try discriminate.
+  repeat split; auto. destruct (closed s); [discriminate|reflexivity].
+Qed.
